@@ -40,7 +40,7 @@ def main():
             print("patch does not apply:", e)
             meta["patch_applies"] = False
             return 2
-        rcs, os_, es = sh(["/venv/bin/python", "-m", "pytest", "-q", "-p", "no:cacheprovider", "--timeout=900"], cwd=wt, env=env)
+        rcs, os_, es = sh(["/venv/bin/python", "-m", "pytest", "-q", "-p", "no:cacheprovider", "--timeout=120"], cwd=wt, env=env)
         meta["suite_with_change"] = {"rc": rcs, "tail": os_.strip().splitlines()[-1:]}
         rc1, o1, e1 = sh(["/venv/bin/python", demo], cwd=wt, env=env, timeout=600)
         meta["demo_with_change"] = {"rc": rc1, "tail": (o1 + e1).strip().splitlines()[-1:]}
